@@ -35,6 +35,119 @@ Theorem C09_never_more_noproof : forall H r first keys values,
 Proof. exact never_more_noproof. Qed.
 Print Assumptions C09_never_more_noproof.
 
+(* zero-element run with one edge proof, over a database that answers genuine hashes
+   only with the genuine encoding ([P] covers the node encodings of t): accepted => no
+   entry of the trie lies at or after the start key (and "more" is false); conversely such
+   a run is accepted as soon as the root node and the hashed nodes on the start key's path
+   are present.  [ulen]: every key of the trie has the start key's length. *)
+Theorem C09_range_empty_sound_complete : forall (H : list N -> list N),
+  (forall x, length (H x) = 32%nat) ->
+  forall (db : pdb) (P : list N -> Prop),
+  (forall e b, P e -> db_get db (H e) = Some b -> b = e) ->
+  forall t r first,
+    can t -> content_ok t -> hash_root H t = Some r -> (forall e, genuine H t e -> P e) ->
+    forallb byteb first = true -> ulen t (length (keybytes_to_hex first)) ->
+    (forall b, verify_range_proof H r first [] [] (Some db) = Rok b ->
+               b = false /\ none_from t (keybytes_to_hex first)) /\
+    (none_from t (keybytes_to_hex first) -> db_get db r <> None ->
+     ~ missing_on H db t (keybytes_to_hex first) ->
+     verify_range_proof H r first [] [] (Some db) = Rok false).
+Proof. exact range_empty_sound_complete. Qed.
+Print Assumptions C09_range_empty_sound_complete.
+
+(* one-element run whose key is the start key: accepted => the trie holds exactly that
+   value under the key and "more" <=> some key of the trie is greater; conversely the
+   true entry is accepted when the path nodes are present *)
+Theorem C09_range_single_sound_complete : forall (H : list N -> list N),
+  (forall x, length (H x) = 32%nat) ->
+  forall (db : pdb) (P : list N -> Prop),
+  (forall e b, P e -> db_get db (H e) = Some b -> b = e) ->
+  forall t r first v,
+    can t -> content_ok t -> hash_root H t = Some r -> (forall e, genuine H t e -> P e) ->
+    forallb byteb first = true -> ulen t (length (keybytes_to_hex first)) ->
+    (forall b, verify_range_proof H r first [first] [v] (Some db) = Rok b ->
+               lk t (keybytes_to_hex first) = Some v /\ (b = true <-> has_gt t (keybytes_to_hex first))) /\
+    (lk t (keybytes_to_hex first) = Some v -> db_get db r <> None ->
+     ~ missing_on H db t (keybytes_to_hex first) ->
+     exists b, verify_range_proof H r first [first] [v] (Some db) = Rok b /\
+               (b = true <-> has_gt t (keybytes_to_hex first))).
+Proof. exact range_single_sound_complete. Qed.
+Print Assumptions C09_range_single_sound_complete.
+
+(* unsetInternal on a well-formed trie whose keys all have the edge keys' length: whatever
+   it returns (node kept / node removed), no key of the closed interval [left, right] is
+   reachable afterwards *)
+Theorem C09_unset_removes_interior : forall s left right a,
+  slotok s -> ulen s (length left) -> length left = length right ->
+  valid_key left -> valid_key right -> slice_lt left right = true ->
+  unset_internal s left right = Rok a ->
+  forall k, between left right k -> lk (act_node a) k = None.
+Proof. exact unset_internal_spec. Qed.
+Print Assumptions C09_unset_removes_interior.
+
+(* THE TWO-EDGE BRANCH, soundness at full strength (DESIGN.md planned only the genuine-edge
+   case): for ANY hash-keyed proof database whose blobs lie in the collision-free set NS
+   (genuine nodes with omissions, nodes of other tries, garbage), if VerifyRangeProof accepts
+   a run of >= 2 keys, or of one key different from the start key, then on the closed
+   interval [firstKey, lastKey] the trie holds exactly the run, and "more" <=> the trie has
+   a key beyond the last one.  NS must also cover the encodings of the rebuilt trie. *)
+Theorem C09_range_sound_general : forall (H : list N -> list N),
+  (forall x, length (H x) = 32%nat) ->
+  forall NS : list N -> Prop, H_inj_on H NS ->
+  forall db t r first last keys values Lb b,
+    db_keyed H db -> db_in NS db ->
+    can t -> content_ok t -> hash_root H t = Some r ->
+    keys_fixed t Lb -> (0 < Lb)%nat -> N.of_nat Lb < 2 ^ 30 ->
+    length first = Lb -> forallb byteb first = true ->
+    Forall (fun k => length k = Lb /\ forallb byteb k = true) keys -> Forall small values ->
+    last_opt keys = Some last ->
+    ((2 <= length keys)%nat \/ last <> first) ->
+    NS empty_root_preimage -> (forall e, genuine H t e -> NS e) ->
+    (forall a s3, unset_internal t (keybytes_to_hex first) (keybytes_to_hex last) = Rok a ->
+                  reinsert (act_node a) keys values = Rok s3 -> forall e, genuine H s3 e -> NS e) ->
+    verify_range_proof H r first keys values (Some db) = Rok b ->
+    (forall hk, between (keybytes_to_hex first) (keybytes_to_hex last) hk -> lk t hk = run_map keys values hk) /\
+    (b = true <-> has_gt t (keybytes_to_hex last)).
+Proof. exact range_sound_general_keyed. Qed.
+Print Assumptions C09_range_sound_general.
+
+(* for byte keys of one length the order on hex keys used above is bytes.Compare *)
+Theorem C09_hex_order : forall a b, forallb byteb a = true -> forallb byteb b = true -> length a = length b ->
+  slice_lt (keybytes_to_hex a) (keybytes_to_hex b) = slice_lt a b.
+Proof. exact slice_lt_hex. Qed.
+Print Assumptions C09_hex_order.
+
+(* never a panic value (nor the model's fuel): the no-proof, empty-run and single-element
+   branches, on non-empty keys of one length and genuine proof nodes *)
+Theorem C09_range_total_noproof : forall (H : list N -> list N),
+  (forall x, length (H x) = 32%nat) ->
+  forall r first keys values Lb,
+    (0 < Lb)%nat -> N.of_nat Lb < 2 ^ 30 ->
+    Forall (fun k => length k = Lb /\ forallb byteb k = true) keys -> Forall small values ->
+    no_panic (verify_range_proof H r first keys values None).
+Proof. exact noproof_total. Qed.
+Print Assumptions C09_range_total_noproof.
+
+Theorem C09_range_total_empty : forall (H : list N -> list N),
+  (forall x, length (H x) = 32%nat) ->
+  forall (db : pdb) (P : list N -> Prop),
+  (forall e b, P e -> db_get db (H e) = Some b -> b = e) ->
+  forall t r, can t -> content_ok t -> hash_root H t = Some r -> (forall e, genuine H t e -> P e) ->
+  forall first, forallb byteb first = true -> ulen t (length (keybytes_to_hex first)) ->
+    no_panic (verify_range_proof H r first [] [] (Some db)).
+Proof. exact empty_total. Qed.
+Print Assumptions C09_range_total_empty.
+
+Theorem C09_range_total_single : forall (H : list N -> list N),
+  (forall x, length (H x) = 32%nat) ->
+  forall (db : pdb) (P : list N -> Prop),
+  (forall e b, P e -> db_get db (H e) = Some b -> b = e) ->
+  forall t r, can t -> content_ok t -> hash_root H t = Some r -> (forall e, genuine H t e -> P e) ->
+  forall first, forallb byteb first = true -> ulen t (length (keybytes_to_hex first)) ->
+  forall v, no_panic (verify_range_proof H r first [first] [v] (Some db)).
+Proof. exact single_total. Qed.
+Print Assumptions C09_range_total_single.
+
 (* OUTSIDE the guard (1): an empty key in the no-proof branch makes the Go code panic
    (StackTrie.Update -> writeHexKey: dst[2*len(key)-1]); full statement refuted:
    "verification never panics on any keys". Reproduced on the real code. *)
